@@ -167,7 +167,9 @@ def vm_crosscheck(pid, cases, shard=400, nproc=8):
     for s in range(0, len(cases), shard):
         name = '%s_%d' % (pid, s // shard)
         lines = ['From Coq Require Import List NArith ZArith QArith Bool Arith.',
-                 'From PV Require Import extract.Api.', 'Import ListNotations.', 'Open Scope list_scope.']
+                 'From PV Require Import %s.' % ' '.join('extract.' + f[:-2] for f in sorted(os.listdir(os.path.join(COQ, 'extract')))
+                                                         if f.startswith('Api') and f.endswith('.v')),
+                 'Import ListNotations.', 'Open Scope list_scope.']
         for k, (func, args, exp) in enumerate(cases[s:s + shard]):
             argt, rest = SIGS[func]
             call = ' '.join([func] + ['(%s)' % proto.coq_term(a, t) for a, t in zip(args, argt)])
